@@ -98,7 +98,7 @@ def code_for_expr(expr: Any) -> cst.CSTNode:
           "Internal Fiddle error: you must run the make_symbolic_references "
           "passes before CST generation."
       )
-    elif isinstance(value, (list, tuple)):
+    elif type(value) in (list, tuple):  # Not subclasses, e.g. NamedTuples.
       original = value
       value = state.map_children(value)
       if isinstance(value, list):
@@ -116,7 +116,7 @@ def code_for_expr(expr: Any) -> cst.CSTNode:
           )
         elements.append(cst.Element(sub_value))
       return cst_cls(elements)
-    elif isinstance(value, dict):
+    elif type(value) is dict:  # Not subclasses, e.g. defaultdict.
       elements = []
       for key, sub_value in value.items():
         key_node = state.call(key, daglish.Key(f"__key_{key}"))
